@@ -1,6 +1,20 @@
+from .. import common as C
+
+
+def gen_trans_hop():
+    # Lean definitions of HopIntervalConfig.normalized and udpHopPacketConn.nextHopInterval TRANSLATED from the current
+    # source of extras/transport/udphop/conn.go (Hy/Gen/TransHop.lean; a non-nil error is `Res.reject`, rand.Int63n is a
+    # function parameter); Props/C19.lean proves them equal to Hop.normalized / Hop.nextHopInterval
+    # (normalized_translation_eq, nextHopInterval_translation_eq)
+    H = "extras/transport/udphop/conn.go:"
+    C.gen_translate("Hop", [H + "HopIntervalConfig.normalized", H + "udpHopPacketConn.nextHopInterval"],
+                    externs={"rand.Int63n": "int64:int64"})
+
+
 CFG = {
     "props_module": "Hy.Props.C19",
     "gen_modules": ["extras"],
+    "gen_hooks": [gen_trans_hop],
     "level": "proof",
     "streams": [
         {"mod": "extras", "component": "portunion", "driver": "portunion",
